@@ -217,3 +217,16 @@ def c17(ctx):
         tool_job(ctx, 'shellparse', 'internal/shellparse', 'shellparse', [H(ctx, 'C17', 'shell_h.go')], unwind=40, deadline_s=600 if q else 2400),
         tool_job(ctx, 'safesplit', 'xtool/safesplit', 'safesplit', [H(ctx, 'C17', 'pkgconfig_h.go')], unwind=40, deadline_s=600 if q else 2400),
     ]
+
+
+@prop('C18', level='other', title='target descriptions')
+def c18(ctx):
+    import subprocess
+    gen = os.path.join(ctx.scratch, 'c18_merge_h.go')
+    subprocess.check_call(['python3', H(ctx, 'C18', 'gen_merge.py'), os.path.join(ctx.repo, 'internal/targets/config.go'), gen])
+    q = ctx.quick
+    return [
+        tool_job(ctx, 'merge', 'internal/targets', 'targets', [gen], unwind=16, deadline_s=300),
+        tool_job(ctx, 'inherit', 'internal/targets', 'targets', [H(ctx, 'C18', 'inherit_h.go')], unwind=16, deadline_s=900 if q else 3000,
+                 only=['H_inherit2', 'H_inherit3'] if q else ['H_inherit2', 'H_inherit3', 'H_inherit3full'], extra=['--recursion-fails', 'C18.inherit.terminates', '--maxdepth', '40']),
+    ]
